@@ -1,6 +1,8 @@
 import SameVerif.Thm.C03
 import SameVerif.Lemmas.CombineFew
 import SameVerif.Lemmas.AssemblerRuns
+import SameVerif.Lemmas.CombineTails
+import SameVerif.Lemmas.AssemblerThree
 /-
   C02 — Two of three bursts suffice (and one does not).
   Property theorems about `combine` on one/two bursts and about the assembler model run over
@@ -221,5 +223,550 @@ theorem two_bursts_report_example :
   refine two_bursts_report_init exampleHeader 19 1000 2900 3582 [1500, 2000] [2901, 3500]
     (fun b hb => List.all_eq_true.mp hc.2.1 b hb) hc.1 (by rw [hc.2.2]; decide) (by decide)
     (by decide) (by decide) (by decide)
+
+end SameVerif.C02
+
+/-
+  C02 (continued) — bursts that carry bytes after the header (`H ++ g_i`): the positive theorem
+  under the hypothesis that the voted tail holds no `-`, the F7 witness when it does, and the
+  transport-level statements for three bursts and for the trailer.
+-/
+namespace SameVerif.C02
+open SameVerif SameVerif.Spec SameVerif.Asm
+
+/-! ### 10. text after the header: the parser -/
+
+/-- **Appended dash-free text cannot extend the match.**  `H` is canonical (its match covers it
+    entirely); `t` is any byte string without `-`.  The match on `H ++ t` is the match on `H`. -/
+theorem parse_with_dashfree_tail (H t : List Byte) (off : Nat)
+    (hcan : checkHeader H = some (off, H.length)) (ht : ∀ b ∈ t, b ≠ 45) :
+    checkHeader (H ++ t) = some (off, H.length) :=
+  checkHeader_dashfree_tail H off t hcan ht
+
+/-- the header built from `H ++ t` (ASCII, `t` dash-free) stores exactly `H` -/
+theorem header_new_dashfree_tail (H t : List Byte) (off : Nat)
+    (hcan : checkHeader H = some (off, H.length)) (ht : ∀ b ∈ t, b ≠ 45)
+    (hascii : ∀ b ∈ H ++ t, b < 128) :
+    Header.new (H ++ t) = .ok ⟨H, off, 0, 0⟩ := by
+  have hall : (H ++ t).all isAsciiByte = true := by
+    rw [List.all_eq_true]
+    intro b hb
+    simpa [isAsciiByte] using hascii b hb
+  simp [Header.new, hall, checkHeader_dashfree_tail H off t hcan ht]
+
+/-! ### 11. text after the header: the combiner -/
+
+/-- the estimate over three bursts `H ++ g_i` is `H` (three bursts, no errors) followed by the
+    estimate over the tails alone with the remaining capacity -/
+theorem estimate_with_tails (maxLen : Nat) (H g1 g2 g3 : List Byte)
+    (hall : ∀ b ∈ H, isAllowed b = true) (hfit : H.length ≤ maxLen) :
+    estimateMessage maxLen [H ++ g1, H ++ g2, H ++ g3]
+      = agreePart 3 H ++ estimateLoop (maxLen - H.length) [g1, g2, g3] := by
+  simp only [estimateMessage, List.take]
+  exact estimateLoop_prefix3 H g1 g2 g3 maxLen hall hfit
+
+theorem estimate_with_tails_pair (maxLen : Nat) (H g1 g2 : List Byte)
+    (hall : ∀ b ∈ H, isAllowed b = true) (hfit : H.length ≤ maxLen) :
+    estimateMessage maxLen [H ++ g1, H ++ g2]
+      = agreePart 2 H ++ estimateLoop (maxLen - H.length) [g1, g2] := by
+  simp only [estimateMessage, List.take]
+  exact estimateLoop_prefix2 H g1 g2 maxLen hall hfit
+
+/-- **Three bursts with tails, condition on the tails' own estimate.**  If no byte of the estimate
+    over `[g1, g2, g3]` (capacity `maxLen - |H|`) that is backed by two or more bursts is `-`, the
+    three bursts combine to exactly `H`: no errors, every byte voted. -/
+theorem combine_with_tails' (maxLen : Nat) (H g1 g2 g3 : List Byte) (off : Nat)
+    (hall : ∀ b ∈ H, isAllowed b = true)
+    (hcan : checkHeader H = some (off, H.length))
+    (hfit : H.length ≤ maxLen)
+    (hdash : ∀ e ∈ estimateLoop (maxLen - H.length) [g1, g2, g3], 2 ≤ e.nbursts → e.byte ≠ 45) :
+    combine maxLen [H ++ g1, H ++ g2, H ++ g3] = some (.ok (.som ⟨H, off, 0, H.length⟩)) := by
+  have := combine_of_agree maxLen _ H off 3 _ (by omega)
+    (estimate_with_tails maxLen H g1 g2 g3 hall hfit) hall hcan
+    (estimateLoop_allowed _ _)
+    (by
+      intro e he
+      have hm := (List.takeWhile_sublist _).subset he
+      have hp := mem_takeWhile_holds _ _ _ he
+      exact hdash e hm (by simp at hp; omega))
+  simpa using this
+
+/-- **Three bursts with tails.**  The same with the condition read off the estimate of the bursts
+    themselves: beyond `|H|`, no estimated byte backed by two or more bursts is `-`. -/
+theorem combine_with_tails (maxLen : Nat) (H g1 g2 g3 : List Byte) (off : Nat)
+    (hall : ∀ b ∈ H, isAllowed b = true)
+    (hcan : checkHeader H = some (off, H.length))
+    (hfit : H.length ≤ maxLen)
+    (hdash : ∀ e ∈ (estimateMessage maxLen [H ++ g1, H ++ g2, H ++ g3]).drop H.length,
+      2 ≤ e.nbursts → e.byte ≠ 45) :
+    combine maxLen [H ++ g1, H ++ g2, H ++ g3] = some (.ok (.som ⟨H, off, 0, H.length⟩)) := by
+  apply combine_with_tails' maxLen H g1 g2 g3 off hall hcan hfit
+  rw [estimate_with_tails maxLen H g1 g2 g3 hall hfit] at hdash
+  have hd : (agreePart 3 H ++ estimateLoop (maxLen - H.length) [g1, g2, g3]).drop H.length
+      = estimateLoop (maxLen - H.length) [g1, g2, g3] := by
+    rw [← agreePart_length 3 H]; exact List.drop_left
+  rwa [hd] at hdash
+
+/-- **Two bursts with tails**, condition on the tails' own estimate: exactly `H`, no errors, no
+    byte voted by three. -/
+theorem combine_with_tails_pair' (maxLen : Nat) (H g1 g2 : List Byte) (off : Nat)
+    (hall : ∀ b ∈ H, isAllowed b = true)
+    (hcan : checkHeader H = some (off, H.length))
+    (hfit : H.length ≤ maxLen)
+    (hdash : ∀ e ∈ estimateLoop (maxLen - H.length) [g1, g2], 2 ≤ e.nbursts → e.byte ≠ 45) :
+    combine maxLen [H ++ g1, H ++ g2] = some (.ok (.som ⟨H, off, 0, 0⟩)) := by
+  have := combine_of_agree maxLen _ H off 2 _ (by omega)
+    (estimate_with_tails_pair maxLen H g1 g2 hall hfit) hall hcan
+    (estimateLoop_allowed _ _)
+    (by
+      intro e he
+      have hm := (List.takeWhile_sublist _).subset he
+      have hp := mem_takeWhile_holds _ _ _ he
+      exact hdash e hm (by simp at hp; omega))
+  simpa using this
+
+theorem combine_with_tails_pair (maxLen : Nat) (H g1 g2 : List Byte) (off : Nat)
+    (hall : ∀ b ∈ H, isAllowed b = true)
+    (hcan : checkHeader H = some (off, H.length))
+    (hfit : H.length ≤ maxLen)
+    (hdash : ∀ e ∈ (estimateMessage maxLen [H ++ g1, H ++ g2]).drop H.length,
+      2 ≤ e.nbursts → e.byte ≠ 45) :
+    combine maxLen [H ++ g1, H ++ g2] = some (.ok (.som ⟨H, off, 0, 0⟩)) := by
+  apply combine_with_tails_pair' maxLen H g1 g2 off hall hcan hfit
+  rw [estimate_with_tails_pair maxLen H g1 g2 hall hfit] at hdash
+  have hd : (agreePart 2 H ++ estimateLoop (maxLen - H.length) [g1, g2]).drop H.length
+      = estimateLoop (maxLen - H.length) [g1, g2] := by
+    rw [← agreePart_length 2 H]; exact List.drop_left
+  rwa [hd] at hdash
+
+/-- **The tail condition, position by position.**  Wherever two or more of the tails have a byte,
+    the vote over those bytes (eighth bit cleared; in burst order) is not `-`. -/
+def TailsVoteNoDash (gs : List (List Byte)) : Prop :=
+  ∀ j v, 2 ≤ (columnAt gs j).length → voteAt (columnAt gs j) ≠ some (45, v)
+
+theorem tails_cond_of_pointwise (cap : Nat) (gs : List (List Byte)) (h : TailsVoteNoDash gs) :
+    ∀ e ∈ estimateLoop cap gs, 2 ≤ e.nbursts → e.byte ≠ 45 := by
+  intro e he hn hb
+  obtain ⟨j, v, h1, h2⟩ := estimateLoop_mem_vote cap gs e he
+  rw [hb] at h1
+  exact h j v (by omega) h1
+
+/-- three bursts with tails, pointwise condition -/
+theorem combine_with_tails_pointwise (maxLen : Nat) (H g1 g2 g3 : List Byte) (off : Nat)
+    (hall : ∀ b ∈ H, isAllowed b = true)
+    (hcan : checkHeader H = some (off, H.length))
+    (hfit : H.length ≤ maxLen)
+    (hdash : TailsVoteNoDash [g1, g2, g3]) :
+    combine maxLen [H ++ g1, H ++ g2, H ++ g3] = some (.ok (.som ⟨H, off, 0, H.length⟩)) :=
+  combine_with_tails' maxLen H g1 g2 g3 off hall hcan hfit (tails_cond_of_pointwise _ _ hdash)
+
+/-- two bursts with tails, pointwise condition -/
+theorem combine_with_tails_pair_pointwise (maxLen : Nat) (H g1 g2 : List Byte) (off : Nat)
+    (hall : ∀ b ∈ H, isAllowed b = true)
+    (hcan : checkHeader H = some (off, H.length))
+    (hfit : H.length ≤ maxLen)
+    (hdash : TailsVoteNoDash [g1, g2]) :
+    combine maxLen [H ++ g1, H ++ g2] = some (.ok (.som ⟨H, off, 0, 0⟩)) :=
+  combine_with_tails_pair' maxLen H g1 g2 off hall hcan hfit (tails_cond_of_pointwise _ _ hdash)
+
+/-- for two bursts it is enough that one tail holds no `-` (eighth bit aside): the two-burst
+    "vote" only passes bytes on which both bursts agree -/
+theorem pair_pointwise_of_first (g1 g2 : List Byte) (h : ∀ b ∈ g1, mask7 b ≠ 45) :
+    TailsVoteNoDash [g1, g2] := by
+  intro j v hl hv
+  unfold columnAt at hl hv
+  cases h1 : g1[j]? with
+  | none => cases h2 : g2[j]? <;> simp [h1, h2] at hl
+  | some a =>
+    cases h2 : g2[j]? with
+    | none => simp [h1, h2] at hl
+    | some b =>
+      have ha := h a (List.mem_of_getElem? h1)
+      simp only [List.filterMap_cons, h1, h2, List.filterMap_nil, List.map_cons, List.map_nil, voteAt,
+        C03.vote_detect_spec, Option.some.injEq, Prod.mk.injEq] at hv
+      obtain ⟨hv, _⟩ := hv
+      split at hv
+      · exact ha hv
+      · exact absurd hv (by decide)
+
+theorem combine_with_tails_pair_simple (maxLen : Nat) (H g1 g2 : List Byte) (off : Nat)
+    (hall : ∀ b ∈ H, isAllowed b = true)
+    (hcan : checkHeader H = some (off, H.length))
+    (hfit : H.length ≤ maxLen)
+    (hdash : ∀ b ∈ g1, mask7 b ≠ 45) :
+    combine maxLen [H ++ g1, H ++ g2] = some (.ok (.som ⟨H, off, 0, 0⟩)) :=
+  combine_with_tails_pair_pointwise maxLen H g1 g2 off hall hcan hfit (pair_pointwise_of_first g1 g2 hdash)
+
+/-! ### 12. F7: the voted tail can extend the callsign -/
+
+/-- "ZCZC-WXR-RWT-012345+0030-1231200-sz2-" (37 bytes, a three-character callsign) -/
+def shortCallHeader : List Byte :=
+  [90, 67, 90, 67, 45, 87, 88, 82, 45, 82, 87, 84, 45, 48, 49, 50, 51, 52, 53, 43, 48, 48, 51, 48, 45,
+   49, 50, 51, 49, 50, 48, 48, 45, 115, 122, 50, 45]
+
+theorem shortCallHeader_canonical :
+    checkHeader shortCallHeader = some (19, shortCallHeader.length)
+      ∧ shortCallHeader.all isAllowed = true ∧ shortCallHeader.length = 37 := by
+  decide +kernel
+
+/-- **Counterexample (F7).**  Three bursts carry the same canonical 37-byte header; each is followed
+    by link-layer garbage: `5-`, `LF ff ff`, `ff 80 LF`.  None of the garbage strings is text, two of
+    them are not even in the character set.  The per-position vote over the tails is `?-` (3f 2d),
+    both bytes backed by three bursts; the third position votes to NUL and ends the estimate.  The
+    greedy callsign match swallows `?-`: the reported header is `H ++ "?-"` (callsign `sz2-?`), with
+    `voting = 39`, `parity = 16` — not `H`. -/
+theorem tail_extension_witness :
+    combine MAXLEN [shortCallHeader ++ [0x35, 45], shortCallHeader ++ [0x0a, 0xff, 0xff],
+                    shortCallHeader ++ [0xff, 0x80, 0x0a]]
+      = some (.ok (.som ⟨shortCallHeader ++ [63, 45], 19, 16, 39⟩))
+    ∧ (estimateMessage MAXLEN [shortCallHeader ++ [0x35, 45], shortCallHeader ++ [0x0a, 0xff, 0xff],
+                    shortCallHeader ++ [0xff, 0x80, 0x0a]]).drop shortCallHeader.length
+      = [⟨63, 3, 8⟩, ⟨45, 3, 8⟩] := by
+  decide +kernel
+
+/-- the hypothesis of `combine_with_tails` is satisfiable with non-trivial tails: the same header
+    and the same two garbage tails, the first tail `5+` instead of `5-`; by the general theorem -/
+theorem combine_with_tails_example :
+    combine MAXLEN [shortCallHeader ++ [0x35, 43], shortCallHeader ++ [0x0a, 0xff, 0xff],
+                    shortCallHeader ++ [0xff, 0x80, 0x0a]]
+      = some (.ok (.som ⟨shortCallHeader, 19, 0, 37⟩)) := by
+  have hc := shortCallHeader_canonical
+  have := combine_with_tails' MAXLEN shortCallHeader [0x35, 43] [0x0a, 0xff, 0xff] [0xff, 0x80, 0x0a] 19
+    (fun b hb => List.all_eq_true.mp hc.2.1 b hb) hc.1 (by rw [hc.2.2]; decide)
+    (by rw [hc.2.2]; decide +kernel)
+  rw [hc.2.2] at this
+  exact this
+
+/-! ### 13. the trailer heard twice is reported once -/
+
+theorem combine_trailer_one : combine MAXLEN [litNNNN] = some (.ok .eom) := by decide +kernel
+
+theorem combine_trailer_two : combine MAXLEN [litNNNN, litNNNN] = some (.ok .eom) := by decide +kernel
+
+/-- **One trailer transmission, bursts 1 and 2.**  From the initial state: `NNNN` at `t1` is output
+    as EndOfMessage by that very call; a second `NNNN` at `t2 < t1 + HIST` adds nothing, and no poll
+    (any number, any times, before, between or after) outputs anything.  Exactly one EndOfMessage. -/
+theorem trailer_two_bursts (t1 t2 : Nat) (polls1 polls2 : List Nat) (h21 : t2 < t1 + HIST) :
+    (runOps {} (.burst litNNNN t1 :: (polls1.map .poll ++ .burst litNNNN t2 :: polls2.map .poll))).2
+      = [(t1, .ok .eom)] := by
+  have hne : litNNNN.isEmpty = false := rfl
+  have htake : litNNNN.take MAXLEN = litNNNN := by decide
+  -- first burst: EndOfMessage at once
+  have hpa1 : pendingAfter {} litNNNN t1 = some ⟨.ok .eom, t1⟩ := by
+    have hest : estimateOf {} litNNNN t1 = some (.ok .eom) := by
+      unfold estimateOf
+      simp only [historyAfter, pruneHistory_nil, htake, List.nil_append, List.map_cons, List.map_nil,
+        combine_trailer_one]
+      rfl
+    unfold pendingAfter; rw [hest]; rfl
+  have hs1 := step_burst_due {} litNNNN t1 ⟨.ok .eom, t1⟩ .eom hne hpa1 rfl (Nat.le_refl _)
+  have hh1 : pruneHistory (historyAfter {} litNNNN t1) t1 = [⟨litNNNN, t1 + HIST⟩] := by
+    simp only [historyAfter, pruneHistory_nil, htake, List.nil_append]
+    exact prune_one_fresh _ _ (by have := HIST_pos; simp only; omega)
+  rw [hh1] at hs1
+  -- polls: nothing pending
+  obtain ⟨hq1, hpn1, hpv1⟩ := run_polls_quiet polls1 (stepOp {} (.burst litNNNN t1)).1 (by rw [hs1])
+  have hsub := run_polls_history_sublist polls1 (stepOp {} (.burst litNNNN t1)).1
+  generalize hS : (runOps (stepOp {} (.burst litNNNN t1)).1 (polls1.map .poll)).1 = S at hpn1 hpv1 hsub
+  rw [hs1] at hpv1 hsub
+  simp only at hpv1 hsub
+  -- second burst: a duplicate
+  have hc2 : combine MAXLEN ((historyAfter S litNNNN t2).map (·.data)) = some (.ok .eom) := by
+    rcases sublist_singleton _ _ hsub with h0 | h1
+    · simp only [historyAfter, h0, pruneHistory_nil, htake, List.nil_append, List.map_cons, List.map_nil]
+      exact combine_trailer_one
+    · rw [historyAfter, h1, prune_one_fresh _ _ (by simpa using h21), htake]
+      exact combine_trailer_two
+  have hest2 : estimateOf S litNNNN t2 = none := by
+    unfold estimateOf
+    have hpp : prunePrevious S.previous t2 = some ⟨.eom, t1 + HIST⟩ := by
+      have : ¬ (t1 + HIST ≤ t2) := by omega
+      simp [hpv1, prunePrevious, Timed.expiredAt, this]
+    rw [hc2, hpp]
+    rfl
+  have hpa2 : pendingAfter S litNNNN t2 = none := by
+    unfold pendingAfter; rw [hest2]; exact hpn1
+  obtain ⟨hs2, hq2⟩ := step_burst_none S litNNNN t2 hne hpa2
+  obtain ⟨hq3, _, _⟩ := run_polls_quiet polls2 (stepOp S (.burst litNNNN t2)).1 (by rw [hs2])
+  rw [runOps_cons_snd, runOps_append_snd, hq1, hS, runOps_cons_snd, outOf_quiet _ _ hq2, hq3, hs1]
+  rfl
+
+/-! ### 14. three bursts are reported exactly once, whatever the poll schedule -/
+
+/-- **Three bursts with tails, any polls.**  Start with an empty history, nothing pending, and a
+    previous report (if any) of a different text.  Bursts `H ++ g1`, `H ++ g2`, `H ++ g3` end at
+    `t1 ≤ t2 ≤ t3 < t1 + HIST`; polls at times `≤ t2` between the first two, at times `≤ t3` between
+    the last two, at any times afterwards, and finally one at `t ≥ t3 + HOLD`.  The voted tails hold
+    no `-` (pair `g1 g2`, triple `g1 g2 g3`).  Then exactly one message is output and its text is `H`:
+    * if some poll between bursts 2 and 3 comes at or after `t2 + HOLD`, the two-burst header
+      (`voting = 0`) is output by the first such poll, and the third burst is suppressed;
+    * otherwise the fully voted header (`voting = |H|`) is output by the first poll at or after
+      `t3 + HOLD`. -/
+theorem three_bursts_report_tails (s : AState) (H g1 g2 g3 : List Byte) (off t1 t2 t3 t : Nat)
+    (polls1 polls2 polls3 : List Nat)
+    (hall : ∀ b ∈ H, isAllowed b = true)
+    (hcan : checkHeader H = some (off, H.length))
+    (hfit : H.length ≤ MAXLEN)
+    (hd2 : ∀ e ∈ estimateLoop (MAXLEN - H.length) [g1, g2], 2 ≤ e.nbursts → e.byte ≠ 45)
+    (hd3 : ∀ e ∈ estimateLoop (MAXLEN - H.length) [g1, g2, g3], 2 ≤ e.nbursts → e.byte ≠ 45)
+    (hh : s.history = []) (hp : s.pending = none)
+    (hprev : ∀ p, s.previous = some p → p.data.text ≠ H)
+    (h12 : t1 ≤ t2) (h23 : t2 ≤ t3) (h31 : t3 < t1 + HIST)
+    (hp1 : ∀ u ∈ polls1, u ≤ t2)
+    (hp2 : ∀ u ∈ polls2, u ≤ t3)
+    (ht : t3 + HOLD ≤ t) :
+    (∃ u ∈ polls2, t2 + HOLD ≤ u ∧
+        (runOps s (.burst (H ++ g1) t1 :: (polls1.map .poll ++ .burst (H ++ g2) t2 ::
+          (polls2.map .poll ++ .burst (H ++ g3) t3 :: (polls3.map .poll ++ [.poll t]))))).2
+          = [(u, .ok (.som ⟨H, off, 0, 0⟩))])
+    ∨ ((∀ u ∈ polls2, u < t2 + HOLD) ∧ ∃ u ∈ polls3 ++ [t], t3 + HOLD ≤ u ∧
+        (runOps s (.burst (H ++ g1) t1 :: (polls1.map .poll ++ .burst (H ++ g2) t2 ::
+          (polls2.map .poll ++ .burst (H ++ g3) t3 :: (polls3.map .poll ++ [.poll t]))))).2
+          = [(u, .ok (.som ⟨H, off, 0, H.length⟩))]) := by
+  have hHne : H ≠ [] := ne_nil_of_checkHeader H _ hcan
+  have hne : ∀ g : List Byte, (H ++ g).isEmpty = false := by
+    intro g
+    cases H with
+    | nil => exact absurd rfl hHne
+    | cons _ _ => rfl
+  -- bursts are clipped to the buffer; the estimator would not look further anyway
+  have htake1 := take_header_tail H g1 MAXLEN hfit
+  have htake2 := take_header_tail H g2 MAXLEN hfit
+  have htake3 := take_header_tail H g3 MAXLEN hfit
+  have hd2' : ∀ e ∈ estimateLoop (MAXLEN - H.length)
+      [g1.take (MAXLEN - H.length), g2.take (MAXLEN - H.length)], 2 ≤ e.nbursts → e.byte ≠ 45 := by
+    have := estimateLoop_take (MAXLEN - H.length) [g1, g2]
+    simp only [List.map_cons, List.map_nil] at this
+    rw [this]; exact hd2
+  have hd3' : ∀ e ∈ estimateLoop (MAXLEN - H.length)
+      [g1.take (MAXLEN - H.length), g2.take (MAXLEN - H.length), g3.take (MAXLEN - H.length)],
+      2 ≤ e.nbursts → e.byte ≠ 45 := by
+    have := estimateLoop_take (MAXLEN - H.length) [g1, g2, g3]
+    simp only [List.map_cons, List.map_nil] at this
+    rw [this]; exact hd3
+  -- first burst: stored
+  have hc1 : combine MAXLEN [(H ++ g1).take MAXLEN] = none := by
+    rw [htake1]; exact combine_single_prefixed _ _ _ _ hcan
+  obtain ⟨hs1, hq1⟩ := burst_stored s (H ++ g1) t1 (hne g1) hh hp hc1
+  rw [htake1] at hs1
+  generalize hS1 : (stepOp s (.burst (H ++ g1) t1)).1 = S1 at hs1
+  -- polls between the first two bursts: nothing moves
+  have hstill : runOps S1 (polls1.map .poll) = (S1, []) := by
+    apply run_polls_still
+    · rw [hs1]
+    · rw [hs1]; simp
+    · intro u hu e he
+      rw [hs1] at he
+      simp only [List.mem_singleton] at he
+      subst he
+      have := hp1 u hu
+      simp only; omega
+  -- second burst: accepted, held
+  have hhist2 : historyAfter S1 (H ++ g2) t2
+      = [⟨H ++ g1.take (MAXLEN - H.length), t1 + HIST⟩, ⟨H ++ g2.take (MAXLEN - H.length), t2 + HIST⟩] := by
+    rw [historyAfter, hs1, htake2]
+    simp only
+    rw [prune_one_fresh _ _ (by simp only; omega)]
+    rfl
+  have hc2 : combine MAXLEN ((historyAfter S1 (H ++ g2) t2).map (·.data))
+      = some (.ok (.som ⟨H, off, 0, 0⟩)) := by
+    rw [hhist2]
+    exact combine_with_tails_pair' MAXLEN H _ _ off hall hcan hfit hd2'
+  have hprev1 : ∀ p, S1.previous = some p → p.data.text ≠ H := by
+    intro p hpp
+    rw [hs1] at hpp
+    simp only at hpp
+    rcases prunePrevious_cases s.previous t1 with ⟨hn, _⟩ | ⟨hk, _⟩
+    · rw [hn] at hpp; cases hpp
+    · rw [hk] at hpp; exact hprev p hpp
+  obtain ⟨hpend2, hpv2, hq2⟩ := burst_accepted S1 (H ++ g2) t2 ⟨H, off, 0, 0⟩ (hne g2)
+    (by rw [hs1]) hc2 hprev1
+  have hh2 := step_burst_history S1 (H ++ g2) t2 (hne g2)
+  rw [hhist2, prune_two_fresh _ _ _ (by simp only; omega) (by simp only; have := HIST_pos; omega)] at hh2
+  generalize hS2 : (stepOp S1 (.burst (H ++ g2) t2)).1 = S2 at hpend2 hpv2 hh2
+  have hprev2 : ∀ p, S2.previous = some p → p.data.text ≠ H := by
+    intro p hpp
+    rw [hpv2] at hpp
+    rcases prunePrevious_cases S1.previous t2 with ⟨hn, _⟩ | ⟨hk, _⟩
+    · rw [hn] at hpp; cases hpp
+    · rw [hk] at hpp; exact hprev1 p hpp
+  -- the rest of the run
+  have hc3 : combine MAXLEN [H ++ g1.take (MAXLEN - H.length), H ++ g2.take (MAXLEN - H.length),
+        (H ++ g3).take MAXLEN]
+      = some (.ok (.som ⟨H, off, 0, H.length⟩)) := by
+    rw [htake3]
+    exact combine_with_tails' MAXLEN H _ _ _ off hall hcan hfit hd3'
+  have key := held_then_third S2 (H ++ g3) ⟨H ++ g1.take (MAXLEN - H.length), t1 + HIST⟩
+    ⟨H ++ g2.take (MAXLEN - H.length), t2 + HIST⟩ t2 t3
+    ⟨H, off, 0, 0⟩ ⟨H, off, 0, H.length⟩ polls2 (polls3 ++ [t]) (hne g3) hh2
+    (by simp only; omega) (by simp only; omega) hp2 hpend2 hc3 (Nat.zero_le _) rfl hprev2
+    (by omega) ⟨t, by simp, ht⟩
+  have hrun : (runOps s (.burst (H ++ g1) t1 :: (polls1.map .poll ++ .burst (H ++ g2) t2 ::
+          (polls2.map .poll ++ .burst (H ++ g3) t3 :: (polls3.map .poll ++ [.poll t]))))).2
+      = (runOps S2 (polls2.map .poll ++ .burst (H ++ g3) t3 :: (polls3 ++ [t]).map .poll)).2 := by
+    rw [runOps_cons_snd, outOf_quiet _ _ hq1, List.nil_append, hS1, runOps_append_snd, hstill]
+    simp only [List.nil_append]
+    rw [runOps_cons_snd, outOf_quiet _ _ hq2, hS2, List.nil_append, List.map_append]
+    rfl
+  rw [hrun]
+  exact key
+
+/-- what `Sorted` says about the three-burst schedule -/
+theorem three_bursts_sorted (b1 b2 b3 : List Byte) (t1 t2 t3 t : Nat) (polls1 polls2 polls3 : List Nat)
+    (hsort : Sorted (.burst b1 t1 :: (polls1.map .poll ++ .burst b2 t2 ::
+      (polls2.map .poll ++ .burst b3 t3 :: (polls3.map .poll ++ [.poll t]))))) :
+    t1 ≤ t2 ∧ t2 ≤ t3 ∧ (∀ u ∈ polls1, u ≤ t2) ∧ (∀ u ∈ polls2, u ≤ t3) := by
+  unfold Sorted at hsort
+  obtain ⟨ha, hrest⟩ := List.pairwise_cons.mp hsort
+  obtain ⟨_, hr2, hx1⟩ := List.pairwise_append.mp hrest
+  obtain ⟨hb, hrest2⟩ := List.pairwise_cons.mp hr2
+  obtain ⟨_, _, hx2⟩ := List.pairwise_append.mp hrest2
+  refine ⟨?_, ?_, ?_, ?_⟩
+  · exact ha (.burst b2 t2) (by simp)
+  · exact hb (.burst b3 t3) (by simp)
+  · intro u hu
+    exact hx1 (.poll u) (List.mem_map.mpr ⟨u, hu, rfl⟩) (.burst b2 t2) (by simp)
+  · intro u hu
+    exact hx2 (.poll u) (List.mem_map.mpr ⟨u, hu, rfl⟩) (.burst b3 t3) (by simp)
+
+/-- **Three bursts with tails are reported exactly once** — any poll schedule in time order. -/
+theorem three_bursts_report (s : AState) (H g1 g2 g3 : List Byte) (off t1 t2 t3 t : Nat)
+    (polls1 polls2 polls3 : List Nat)
+    (hall : ∀ b ∈ H, isAllowed b = true)
+    (hcan : checkHeader H = some (off, H.length))
+    (hfit : H.length ≤ MAXLEN)
+    (hd2 : ∀ e ∈ estimateLoop (MAXLEN - H.length) [g1, g2], 2 ≤ e.nbursts → e.byte ≠ 45)
+    (hd3 : ∀ e ∈ estimateLoop (MAXLEN - H.length) [g1, g2, g3], 2 ≤ e.nbursts → e.byte ≠ 45)
+    (hh : s.history = []) (hp : s.pending = none)
+    (hprev : ∀ p, s.previous = some p → p.data.text ≠ H)
+    (hsort : Sorted (.burst (H ++ g1) t1 :: (polls1.map .poll ++ .burst (H ++ g2) t2 ::
+      (polls2.map .poll ++ .burst (H ++ g3) t3 :: (polls3.map .poll ++ [.poll t])))))
+    (h31 : t3 < t1 + HIST)
+    (ht : t3 + HOLD ≤ t) :
+    ∃ u h, (runOps s (.burst (H ++ g1) t1 :: (polls1.map .poll ++ .burst (H ++ g2) t2 ::
+          (polls2.map .poll ++ .burst (H ++ g3) t3 :: (polls3.map .poll ++ [.poll t]))))).2
+        = [(u, .ok (.som h))]
+      ∧ h.text = H ∧ h.offsetTime = off ∧ h.parity = 0 ∧ (h.voting = 0 ∨ h.voting = H.length) := by
+  obtain ⟨h12, h23, hp1, hp2⟩ := three_bursts_sorted _ _ _ _ _ _ _ _ _ _ hsort
+  rcases three_bursts_report_tails s H g1 g2 g3 off t1 t2 t3 t polls1 polls2 polls3 hall hcan
+    hfit hd2 hd3 hh hp hprev h12 h23 h31 hp1 hp2 ht with ⟨u, _, _, ho⟩ | ⟨_, u, _, _, ho⟩
+  · exact ⟨u, _, ho, rfl, rfl, rfl, Or.inl rfl⟩
+  · exact ⟨u, _, ho, rfl, rfl, rfl, Or.inr rfl⟩
+
+/-- **Three intact bursts, any polls** (no tails): the detailed form. -/
+theorem three_bursts_report_exact (s : AState) (H : List Byte) (off t1 t2 t3 t : Nat)
+    (polls1 polls2 polls3 : List Nat)
+    (hall : ∀ b ∈ H, isAllowed b = true)
+    (hcan : checkHeader H = some (off, H.length))
+    (hfit : H.length ≤ MAXLEN)
+    (hh : s.history = []) (hp : s.pending = none)
+    (hprev : ∀ p, s.previous = some p → p.data.text ≠ H)
+    (h12 : t1 ≤ t2) (h23 : t2 ≤ t3) (h31 : t3 < t1 + HIST)
+    (hp1 : ∀ u ∈ polls1, u ≤ t2)
+    (hp2 : ∀ u ∈ polls2, u ≤ t3)
+    (ht : t3 + HOLD ≤ t) :
+    (∃ u ∈ polls2, t2 + HOLD ≤ u ∧
+        (runOps s (.burst H t1 :: (polls1.map .poll ++ .burst H t2 ::
+          (polls2.map .poll ++ .burst H t3 :: (polls3.map .poll ++ [.poll t]))))).2
+          = [(u, .ok (.som ⟨H, off, 0, 0⟩))])
+    ∨ ((∀ u ∈ polls2, u < t2 + HOLD) ∧ ∃ u ∈ polls3 ++ [t], t3 + HOLD ≤ u ∧
+        (runOps s (.burst H t1 :: (polls1.map .poll ++ .burst H t2 ::
+          (polls2.map .poll ++ .burst H t3 :: (polls3.map .poll ++ [.poll t]))))).2
+          = [(u, .ok (.som ⟨H, off, 0, H.length⟩))]) := by
+  have := three_bursts_report_tails s H [] [] [] off t1 t2 t3 t polls1 polls2 polls3 hall hcan
+    hfit (by rw [estimateLoop_nils2]; intro e he; cases he)
+    (by rw [estimateLoop_nils3]; intro e he; cases he) hh hp hprev h12 h23 h31 hp1 hp2 ht
+  simp only [List.append_nil] at this
+  exact this
+
+/-- **Three intact bursts are reported exactly once**, from the initial state, any poll schedule in
+    time order. -/
+theorem three_bursts_report_init (H : List Byte) (off t1 t2 t3 t : Nat)
+    (polls1 polls2 polls3 : List Nat)
+    (hall : ∀ b ∈ H, isAllowed b = true)
+    (hcan : checkHeader H = some (off, H.length))
+    (hfit : H.length ≤ MAXLEN)
+    (hsort : Sorted (.burst H t1 :: (polls1.map .poll ++ .burst H t2 ::
+      (polls2.map .poll ++ .burst H t3 :: (polls3.map .poll ++ [.poll t])))))
+    (h31 : t3 < t1 + HIST)
+    (ht : t3 + HOLD ≤ t) :
+    ∃ u h, (runOps {} (.burst H t1 :: (polls1.map .poll ++ .burst H t2 ::
+          (polls2.map .poll ++ .burst H t3 :: (polls3.map .poll ++ [.poll t]))))).2
+        = [(u, .ok (.som h))]
+      ∧ h.text = H ∧ h.offsetTime = off ∧ h.parity = 0 ∧ (h.voting = 0 ∨ h.voting = H.length) := by
+  obtain ⟨h12, h23, hp1, hp2⟩ := three_bursts_sorted _ _ _ _ _ _ _ _ _ _ hsort
+  rcases three_bursts_report_exact {} H off t1 t2 t3 t polls1 polls2 polls3 hall hcan hfit rfl rfl
+    (by intro p hp; cases hp) h12 h23 h31 hp1 hp2 ht with ⟨u, _, _, ho⟩ | ⟨_, u, _, _, ho⟩
+  · exact ⟨u, _, ho, rfl, rfl, rfl, Or.inl rfl⟩
+  · exact ⟨u, _, ho, rfl, rfl, rfl, Or.inr rfl⟩
+
+/-! ### 15. the three-burst scenario at the extremes, and F7 at the transport -/
+
+/-- the hypotheses of `three_bursts_report_tails` are satisfiable with garbage tails, early-release
+    branch (a poll in `[t2 + HOLD, t3]`); by the general theorem, not by evaluation -/
+theorem three_bursts_report_example_early :
+    ∃ u ∈ [2000, 2700], 1950 + HOLD ≤ u ∧
+      (runOps {} (.burst (shortCallHeader ++ [0x35, 43]) 1000 :: ([1500].map .poll ++
+        .burst (shortCallHeader ++ [0x0a, 0xff, 0xff]) 1950 :: ([2000, 2700].map .poll ++
+        .burst (shortCallHeader ++ [0xff, 0x80, 0x0a]) 2900 :: ([3000].map .poll ++ [.poll 3600]))))).2
+        = [(u, .ok (.som ⟨shortCallHeader, 19, 0, 0⟩))] := by
+  have hc := shortCallHeader_canonical
+  rcases three_bursts_report_tails {} shortCallHeader [0x35, 43] [0x0a, 0xff, 0xff] [0xff, 0x80, 0x0a]
+    19 1000 1950 2900 3600 [1500] [2000, 2700] [3000]
+    (fun b hb => List.all_eq_true.mp hc.2.1 b hb) hc.1 (by rw [hc.2.2]; decide)
+    (by rw [hc.2.2]; decide +kernel) (by rw [hc.2.2]; decide +kernel) rfl rfl (by intro p hp; cases hp)
+    (by decide) (by decide) (by decide) (by decide) (by decide) (by decide) with h | ⟨h, _⟩
+  · exact h
+  · exact absurd (h 2700 (by simp)) (by decide)
+
+/-- the same with no poll in `[t2 + HOLD, t3]`: the fully voted header -/
+theorem three_bursts_report_example_late :
+    ∃ u ∈ [3000] ++ [3600], 2900 + HOLD ≤ u ∧
+      (runOps {} (.burst (shortCallHeader ++ [0x35, 43]) 1000 :: ([1500].map .poll ++
+        .burst (shortCallHeader ++ [0x0a, 0xff, 0xff]) 1950 :: ([2000, 2500].map .poll ++
+        .burst (shortCallHeader ++ [0xff, 0x80, 0x0a]) 2900 :: ([3000].map .poll ++ [.poll 3600]))))).2
+        = [(u, .ok (.som ⟨shortCallHeader, 19, 0, shortCallHeader.length⟩))] := by
+  have hc := shortCallHeader_canonical
+  rcases three_bursts_report_tails {} shortCallHeader [0x35, 43] [0x0a, 0xff, 0xff] [0xff, 0x80, 0x0a]
+    19 1000 1950 2900 3600 [1500] [2000, 2500] [3000]
+    (fun b hb => List.all_eq_true.mp hc.2.1 b hb) hc.1 (by rw [hc.2.2]; decide)
+    (by rw [hc.2.2]; decide +kernel) (by rw [hc.2.2]; decide +kernel) rfl rfl (by intro p hp; cases hp)
+    (by decide) (by decide) (by decide) (by decide) (by decide) (by decide) with ⟨u, hu, hd, _⟩ | ⟨_, h⟩
+  · exfalso
+    simp only [List.mem_cons, List.not_mem_nil, or_false] at hu
+    rcases hu with rfl | rfl <;> exact absurd hd (by decide)
+  · exact h
+
+/-- **F7 at the transport, no early poll.**  The tails of `tail_extension_witness`; bursts one
+    second apart, no poll between `t2 + HOLD` and `t3`.  One message is output and its text is
+    `H ++ "?-"`, not `H`. -/
+theorem tail_extension_reported_wrong :
+    (runOps {} [.burst (shortCallHeader ++ [0x35, 45]) 1000,
+                .burst (shortCallHeader ++ [0x0a, 0xff, 0xff]) 1950, .poll 2000,
+                .burst (shortCallHeader ++ [0xff, 0x80, 0x0a]) 2900, .poll 3600]).2
+      = [(3600, .ok (.som ⟨shortCallHeader ++ [63, 45], 19, 16, 39⟩))] := by
+  decide +kernel
+
+/-- **F7 at the transport, early poll.**  The same bursts with a poll in `[t2 + HOLD, t3]`: the
+    two-burst header `H` is output at that poll, and the three-burst estimate `H ++ "?-"` — a
+    different text, so not a duplicate — is output as a second StartOfMessage.  One transmission,
+    two reports. -/
+theorem tail_extension_reported_twice :
+    (runOps {} [.burst (shortCallHeader ++ [0x35, 45]) 1000,
+                .burst (shortCallHeader ++ [0x0a, 0xff, 0xff]) 1950, .poll 2700,
+                .burst (shortCallHeader ++ [0xff, 0x80, 0x0a]) 2900, .poll 3600]).2
+      = [(2700, .ok (.som ⟨shortCallHeader, 19, 0, 0⟩)),
+         (3600, .ok (.som ⟨shortCallHeader ++ [63, 45], 19, 16, 39⟩))] := by
+  decide +kernel
+
+theorem tail_extension_runs_sorted :
+    Sorted [.burst (shortCallHeader ++ [0x35, 45]) 1000,
+            .burst (shortCallHeader ++ [0x0a, 0xff, 0xff]) 1950, .poll 2700,
+            .burst (shortCallHeader ++ [0xff, 0x80, 0x0a]) 2900, .poll 3600]
+    ∧ Sorted [.burst (shortCallHeader ++ [0x35, 45]) 1000,
+            .burst (shortCallHeader ++ [0x0a, 0xff, 0xff]) 1950, .poll 2000,
+            .burst (shortCallHeader ++ [0xff, 0x80, 0x0a]) 2900, .poll 3600] := by
+  unfold Sorted
+  decide
 
 end SameVerif.C02
